@@ -587,9 +587,15 @@ func Run(c *hx.Ctx) {
 			continue
 		}
 		if i < nCorpus+nProbes {
-			if o.failed {
+			switch {
+			case strings.HasPrefix(in.Kind, "probe:regression:"):
+				// a repaired defect: a difference here is an unlisted class (VIOLATION)
+				if !o.failed {
+					c.Count("regression-probe-holds:" + in.Kind)
+				}
+			case o.failed:
 				c.Count("probe-exhibited:" + in.Kind)
-			} else {
+			default:
 				c.Note("probe " + in.Kind + " did not exhibit a difference on this run")
 			}
 			if o.member != nil {
